@@ -63,6 +63,7 @@ def run_family(rep, pool, backends=("vm",), timeout=1800):
             reqs.append({"op": "run", "id": len(reqs), "a": {"modules": {"main": src}, "entry": "main", "backend": b, "timeout_ms": 8000}})
             meta.append((src, out, oc, ops, b))
     res = pool.map(reqs, timeout=30)
+    undecided_seen = {}
     for (src, out, oc, ops, b), rr in zip(meta, res):
         rep.count()
         rep.nontrivial(src)
@@ -76,6 +77,11 @@ def run_family(rep, pool, backends=("vm",), timeout=1800):
         if not g["accepted"]:
             raise C.Machinery("int64 program rejected: %s\n%s" % ([d for d in g["diags"] if d["level"] == "Error"][:2], src[:300]))
         if out is None:
+            # no specified value - but what one backend answers the other must answer, too (C04)
+            oc_now = (g["out"], g["outcome"]["kind"], g["outcome"].get("fatal"))
+            other = undecided_seen.setdefault(src, (b, oc_now))
+            if other[0] != b and other[1] != oc_now:
+                rep.fail(dict(feat, kind="backends-disagree", op=ops[0]), {"program": src, other[0]: other[1], b: oc_now})
             continue
         got_oc = g["outcome"]["kind"] + (":" + g["outcome"].get("fatal", "") if g["outcome"]["kind"] == "fatal" else "")
         if g["out"] != out or got_oc != oc:
